@@ -23,6 +23,7 @@ import (
 
 	"github.com/cockroachdb/errors"
 
+	"verif/mc/callmc/conc"
 	"verif/mc/callmc/p0"
 	"verif/mc/callmc/p1"
 	"verif/mc/callmc/p2"
@@ -32,14 +33,18 @@ import (
 
 func init() {
 	core.Register(&core.Check{ID: "C16",
-		Technique: "exhaustive enumeration of (exported constructor x argument shape x depth 0..3 x 2 call paths x stack depth below/above the 32-PC buffer) through generated non-inlinable call chains on the real code",
+		Technique: "exhaustive enumeration of (exported constructor x argument shape x depth 0..3 x 2 call paths x stack depth below/above the 32-PC buffer) through generated non-inlinable call chains on the real code; " + conc.Technique,
 		Shards:    func(string) int { return 1 },
-		Run:       runC16})
+		Run:       runC16,
+		// the schedule dimension (concurrent.go): explored by build/mc-sched
+		// beside this binary's sequential worker.
+		Pre:  preC16,
+		Post: postC16})
 }
 
 const (
 	maxDepth = 3
-	nPaths   = 2
+	nPaths   = 4
 	// hops per executed case: p3 -> p2 -> p1 -> p0 -> library function
 	hopsPerCase = 4
 )
@@ -118,7 +123,8 @@ var notConstructors = map[string]bool{"errutil.As": true}
 // link describes what the runtime knows about link d of a chain.
 type link struct {
 	dir, file string    // of package p_d
-	fn        [2]string // full function name of p_d's link, per call path
+	fn        [nPaths]string // full function name of p_d's link, per call path
+	short     [nPaths]string // the function's own name as written in the source
 }
 
 func funcName(f interface{}) string {
@@ -132,10 +138,15 @@ func links() [maxDepth + 1]link {
 	l[1].dir, l[1].file = p1.Where()
 	l[2].dir, l[2].file = p2.Where()
 	l[3].dir, l[3].file = p3.Where()
-	l[0].fn = [2]string{funcName(p0.H), funcName((*p0.T).G)}
-	l[1].fn = [2]string{funcName(p1.H), funcName((*p1.T).G)}
-	l[2].fn = [2]string{funcName(p2.H), funcName((*p2.T).G)}
-	l[3].fn = [2]string{funcName(p3.H), funcName((*p3.T).G)}
+	// paths 3 and 4 (generic function, method of a generic type) end in p0's plain H
+	l[0].fn = [nPaths]string{funcName(p0.H), funcName((*p0.T).G), funcName(p0.H), funcName(p0.H)}
+	l[1].fn = [nPaths]string{funcName(p1.H), funcName((*p1.T).G), funcName(p1.HG[int]), funcName((*p1.GT[int]).GG)}
+	l[2].fn = [nPaths]string{funcName(p2.H), funcName((*p2.T).G), funcName(p2.HG[int]), funcName((*p2.GT[int]).GG)}
+	l[3].fn = [nPaths]string{funcName(p3.H), funcName((*p3.T).G), funcName(p3.HG[int]), funcName((*p3.GT[int]).GG)}
+	l[0].short = [nPaths]string{"H", "G", "H", "H"}
+	for d := 1; d <= maxDepth; d++ {
+		l[d].short = [nPaths]string{"H", "G", "HG", "GG"}
+	}
 	return l
 }
 
@@ -143,8 +154,13 @@ func links() [maxDepth + 1]link {
 //
 //go:noinline
 func enter(path int, name string, shape, depth int) (string, error) {
-	if path == 1 {
+	switch path {
+	case 1:
 		return p3.H(name, shape, depth)
+	case 3:
+		return p3.HG[int](name, shape, depth)
+	case 4:
+		return (&p3.GT[int]{}).GG(name, shape, depth)
 	}
 	var top interface {
 		G(string, int, int) (string, error)
@@ -236,7 +252,7 @@ func lastDot(s string) string {
 // directory dir belongs to: it makes messages readable.
 func whoIs(ls [maxDepth + 1]link, fn, dir string) string {
 	for d, l := range ls {
-		if (fn != "" && (l.fn[0] == fn || l.fn[1] == fn)) || (dir != "" && l.dir == dir) {
+		if (fn != "" && (l.fn[0] == fn || l.fn[1] == fn || l.fn[2] == fn || l.fn[3] == fn)) || (dir != "" && l.dir == dir) {
 			return fmt.Sprintf("link %d of the chain", d)
 		}
 	}
@@ -311,7 +327,12 @@ func runCase(r *core.Result, ls [maxDepth + 1]link, fc fcase, shape, depth, path
 	fr := outer.Frames[len(outer.Frames)-1] // Sentry order: innermost frame last
 	gotFn := fr.Module + "." + fr.Function
 	gotDir, gotFile := filepath.Dir(fr.AbsPath), filepath.Base(fr.AbsPath)
-	frameOK := gotFn == wantFn && gotDir == want.dir && gotFile == want.file
+	// (the function part of the frame is the function's own name, also for
+	// generic functions and methods of generic types)
+	// (module + function give back the runtime's name, the "[...]" that
+	// stands for type arguments apart)
+	unbr := func(s string) string { return strings.ReplaceAll(s, "[...]", "") }
+	frameOK := unbr(gotFn) == unbr(wantFn) && fr.Function == want.short[path-1] && gotDir == want.dir && gotFile == want.file
 	if !frameOK {
 		ok = false
 		r.Violate(vkey("stack-frame", fc, shape, nestTag), fmt.Sprintf("%s: first recorded frame is %s (%s:%d; %s), want %s in %s (link %d)",
@@ -330,10 +351,10 @@ func runCase(r *core.Result, ls [maxDepth + 1]link, fc fcase, shape, depth, path
 		case !found:
 			ok = false
 			r.Violate(vkey("oneline", fc, shape, nestTag), fmt.Sprintf("%s: GetOneLineSource finds nothing although a stack is recorded", where), rp)
-		case file != want.file || fn != lastDot(wantFn) || line != ifr.Lineno || line <= 0:
+		case file != want.file || fn != want.short[path-1] || line != ifr.Lineno || line <= 0:
 			ok = false
 			r.Violate(vkey("oneline", fc, shape, nestTag), fmt.Sprintf("%s: GetOneLineSource = (%s, %d, %s), want (%s, %d, %s)",
-				where, file, line, fn, want.file, ifr.Lineno, lastDot(wantFn)), rp)
+				where, file, line, fn, want.file, ifr.Lineno, want.short[path-1]), rp)
 		}
 	}
 	return evals, ok
@@ -348,7 +369,7 @@ func runC16(c *core.Ctx, r *core.Result) {
 	for _, fc := range table {
 		nfs += len(fc.shapes)
 	}
-	r.Bounds = fmt.Sprintf("%d exported functions (root, errutil, withstack, domains, grpc/status) x every argument shape that selects a different library branch (%d (function, shape) pairs; shapes %s) x depth 0..%d (depth 0 only for functions without a depth parameter) x %d call paths (plain functions; methods through interface values) x chain entered below N extra recursive frames, N in %v (the library keeps 32 PCs per stack), each through a 4-package non-inlinable chain", len(table), nfs, strings.Join(p0.ShapeNames, ", "), maxDepth, nPaths, ns)
+	r.Bounds = fmt.Sprintf("%d exported functions (root, errutil, withstack, domains, grpc/status) x every argument shape that selects a different library branch (%d (function, shape) pairs; shapes %s) x depth 0..%d (depth 0 only for functions without a depth parameter) x %d call paths (plain functions; methods through interface values; generic functions; methods of generic types) x chain entered below N extra recursive frames, N in %v (the library keeps 32 PCs per stack), each through a 4-package non-inlinable chain", len(table), nfs, strings.Join(p0.ShapeNames, ", "), maxDepth, nPaths, ns)
 	r.Rule = "state = (function, argument shape, depth, call path, nest); transition = one call-chain hop (4 + nest per state); non-trivial = depth>=1 or call path 2 or shape != plain or nest != 0; outcome class = function family"
 	r.Assumptions = []string{
 		"//go:noinline keeps every link of the chain a real frame; the library functions themselves may be inlined (runtime.Callers/Caller expand inlined frames)",
